@@ -144,7 +144,9 @@ class Loop:
         self.S, self.nS, self.hist = z3.Const("S", A_), z3.Int("nS"), z3.Const("hist", A_)
         self.iterable, self.undefined, self.recurse = sym("iterable", "obj"), sym("undefined_cls", "obj"), sym("recurse", "obj")
         self.depth0 = sym("depth0", "int")
-        self.sized, self.has_aiter = sym("sized", "bool"), sym("has_aiter", "bool")
+        self.sized, self.has_aiter, self.has_iter = sym("sized", "bool"), sym("has_aiter", "bool"), sym("has_iter", "bool")
+        # requires: the iterable is iterable (async mode: sync or async iterable)
+        st.assume(z3.Or(self.has_iter.t, self.has_aiter.t) if self.asynchronous else self.has_iter.t)
         j = z3.Int("pj")
         if init:
             self.i0, self.after, self.cur, self.bef, self.c = z3.IntVal(-1), MISSING, MISSING, MISSING, z3.IntVal(0)
@@ -304,28 +306,42 @@ def install(I, vc):
         # iter(iterable): an iterator over the ghost items (this defines the ghost)
         if not is_sym(args[0], vc.L.iterable):
             return None
-        r = ghost_iter(st)
-        st.trace.append(Event("call", "iter", [args[0]], {}, r, lineno=ln(node)))
-        return [(st, r)]
+        out = []
+        for s, b in I_.fork_bool(st, vc.L.has_iter.t):
+            if b:
+                r = ghost_iter(s)
+                s.trace.append(Event("call", "iter", [args[0]], {}, r, lineno=ln(node)))
+                out.append((s, r))
+            else:
+                out.append((s, Raised(Exc(TypeError, ("object is not iterable",), origin=ln(node)))))
+        return out
 
     def getattr_obj(I_, st, args, kwargs, node):
         o, name = args
-        if name == "__aiter__" and is_sym(o, vc.L.iterable):
+        if name in ("__aiter__", "__iter__") and is_sym(o, vc.L.iterable):
             out = []
-            for s, b in I_.fork_bool(st, vc.L.has_aiter.t):
+            for s, b in I_.fork_bool(st, vc.L.has_aiter.t if name == "__aiter__" else vc.L.has_iter.t):
                 if b:
-                    out.append((s, BoundMethod(o, "__aiter__")))
+                    out.append((s, BoundMethod(o, name)))
                 else:
-                    out.append((s, Raised(Exc(AttributeError, ("__aiter__",), origin=ln(node)))))
+                    out.append((s, Raised(Exc(AttributeError, (name,), origin=ln(node)))))
             return out
         return None
 
     def method_obj(I_, st, args, kwargs, node):
         o, name = args[0], args[1]
         if name == "__aiter__" and is_sym(o, vc.L.iterable) and len(args) == 2:
-            r = st.alloc(HObj(_GhostAsyncIterator, fields={"_it": ghost_iter(st)}))
-            st.trace.append(Event("call", "aiter", [o], {}, r, lineno=ln(node)))
-            return [(st, r)]
+            out = []
+            for s, b in I_.fork_bool(st, vc.L.has_aiter.t):
+                if b:
+                    r = s.alloc(HObj(_GhostAsyncIterator, fields={"_it": ghost_iter(s)}))
+                    s.trace.append(Event("call", "aiter", [o], {}, r, lineno=ln(node)))
+                    out.append((s, r))
+                else:
+                    out.append((s, Raised(Exc(AttributeError, ("__aiter__",), origin=ln(node)))))
+            return out
+        if name == "__iter__" and is_sym(o, vc.L.iterable) and len(args) == 2:
+            return iter_obj(I_, st, [o], {}, node)
         return None
 
     def ghost_anext(I_, st, args, kwargs, node):
@@ -971,9 +987,12 @@ def _drive(x):
 
 
 def _drain(it, asynchronous):
-    if not asynchronous:
-        return list(it)
     out = []
+    while not asynchronous:  # through the iterator protocol the loop context itself uses
+        try:
+            out.append(next(it))
+        except StopIteration:
+            return out
     while True:
         try:
             out.append(_drive(it.__anext__()))
@@ -1020,8 +1039,12 @@ def check_state(w):
         except Exception as ex:
             return (True, f"{cls.__name__}(...) raised {type(ex).__name__}: {ex}")
         want_d0 = 0 if w.get("defaults") else depth0
+        try:
+            future = _drain(ctx._iterator, asynchronous)
+        except Exception as ex:
+            future = f"_iterator is not an iterator: {type(ex).__name__}: {ex}"
         got = (ctx.index0, ctx._after is missing, ctx._length, ctx.depth0, ctx.depth, ctx._recurse is (None if w.get("defaults") else recurse),
-               ctx._undefined is jinja2.Undefined, ctx._last_changed_value is missing, _drain(ctx._iterator, asynchronous))
+               ctx._undefined is jinja2.Undefined, ctx._last_changed_value is missing, future)
         want = (-1, True, None, want_d0, want_d0 + 1, True, True, True, items)
         return (got != want, f"{cls.__name__}.__init__ over {N} items: state={got!r} abstract loop={want!r}")
 
